@@ -2,7 +2,7 @@
    Every theorem quantifies over ALL operation histories / stores; the model
    is tied to lnd's KVStore and SQLStore by the correspondence run. *)
 From Coq Require Import List NArith Bool.
-From LV Require Import Payments.Model Payments.Proofs.
+From LV Require Import Payments.Model Payments.Proofs Payments.Lin Payments.LinProofs.
 Import ListNotations.
 Local Open Scope N_scope.
 
@@ -151,4 +151,31 @@ Theorem C16_overpay_beyond_uint64_refuted : forall b,
             map rerr (answers b [] W_wrap) = [EOk; EOk; EOk].
 Proof.
   intros []; eexists; (split; [vm_compute; reflexivity|]); split; vm_compute; reflexivity.
+Qed.
+
+(* ---- concurrent histories (2-4 goroutines on the real stores) -------------
+   The driver accepts a recorded concurrent history only with a witness order
+   [w] for which the kernel evaluates [lin_witness_ok b h w] to true.  Such a
+   history is linearisable in the standard sense: [reorder h w] contains exactly
+   the completed operations of [h], an operation that returned before another
+   was invoked precedes it, and the sequential model run from the empty store
+   gives every recorded answer. *)
+Theorem C16_lin_checker_sound : forall b h w,
+  lin_witness_ok b h w = true -> linearisation b h (reorder h w).
+Proof. exact lin_checker_sound. Qed.
+
+(* Hence every sequential theorem above speaks about the accepted concurrent
+   history; spelled out for never-overpay: the store the linearised history
+   leaves behind holds no payment whose settled + in-flight amounts exceed its
+   value. *)
+Theorem C16_linearised_never_overpay : forall b h w,
+  lin_witness_ok b h w = true ->
+  forallb op_in_domain (map c_op h) = true ->
+  forall hh p, lookup (run b [] (map c_op (reorder h w))) hh = Some p ->
+  sent (atts p) <= value p /\ sent_ok p = true.
+Proof.
+  intros b h w H D hh p L.
+  apply (C16_never_overpay b (map c_op (reorder h w)) hh p); [|exact L].
+  apply (domain_perm _ h); [|exact D].
+  exact (proj1 (lin_checker_sound b h w H)).
 Qed.
